@@ -847,7 +847,7 @@ theorem save_afterReplace (cfg : Cfg) (s0 : St) (h0 : WF s0) (n0 : Nat) :
 and only for overwritten tensors. -/
 structure PostV (cfg : Cfg) (s0 s3 s : St) : Prop where
   frozen : Frozen s3 s
-  only : ∀ i, s.valid i = false → s0.valid i = false ∨ i ∈ overwritten cfg s0
+  only : ∀ i, s.valid i = false → s0.valid i = false ∨ i ∈ invalidated cfg s0
   keep : ∀ i, s0.valid i = false → s.valid i = false
 
 theorem twoPhase_save (cfg : Cfg) (s0 : St) (h0 : WF s0) (n0 : Nat) :
@@ -915,13 +915,13 @@ theorem invalidates_spec (env : Env) :
 
 
 /-- With no fault after `os.replace`, a serial save either raised with everything as before, or
-returned normally with every overwritten tensor invalidated. -/
+returned normally with every tensor of `invalidated` invalidated. -/
 theorem save_final_cases (cfg : Cfg) (s0 : St) (h0 : WF s0) (n0 : Nat) (f : Nat → Option Nat)
     (hlate : ∀ m, n0 + 1 + (tryBody cfg s0).length < m → f m = none) :
     ((save cfg f n0 s0).faulted = true ∧ Old s0 (save cfg f n0 s0).final) ∨
     ((save cfg f n0 s0).faulted = false ∧
       PostV cfg s0 (afterReplace cfg.env (tryBody cfg s0) n0 s0) (save cfg f n0 s0).final ∧
-      ∀ i ∈ overwritten cfg s0, (save cfg f n0 s0).final.valid i = false) := by
+      ∀ i ∈ invalidated cfg s0, (save cfg f n0 s0).final.valid i = false) := by
   have tp := twoPhase_save cfg s0 h0 n0
   unfold save
   cases hf0 : f n0 with
@@ -971,7 +971,7 @@ theorem save_final_cases (cfg : Cfg) (s0 : St) (h0 : WF s0) (n0 : Nat) (f : Nat 
         exact (runList_post tp f (postEffs cfg s0) (fun e he => List.mem_append_right _ he) _ _ hpc).1
       · intro i hi
         rw [runList_none_final]
-        exact invalidates_spec cfg.env (overwritten cfg s0) c.final i hi
+        exact invalidates_spec cfg.env (invalidated cfg s0) c.final i hi
 
 
 /-! ### Frame of one save; the sharded loop -/
